@@ -43,6 +43,24 @@ Inductive same_result : result (list Q * list Q) -> result (list Q * list Q) -> 
 | same_ok : forall m v m' v', Forall2 Qeq m m' -> Forall2 Qeq v v' -> same_result (Ok (m, v)) (Ok (m', v'))
 | same_err : forall e, same_result (Err e) (Err e).
 
+(* histories of the module, read declaratively: every store() sees exactly the tensors
+   accumulated since the last store that deleted the statistics, as if they had been
+   accumulated afresh in one go; a failing accumulate ends the history *)
+Fixpoint history_ref (dim : Z) (live : list tensor) (ops : list op)
+  (outs : list (result (list Q * list Q)))
+  : list (result (list Q * list Q)) * result (option stats) :=
+  match ops with
+  | [] => (rev outs, accumulate_all dim None live)
+  | OpAcc x :: t =>
+      match accumulate_all dim None (live ++ [x]) with
+      | Ok _ => history_ref dim (live ++ [x]) t outs
+      | Err e => (rev outs, Err e)
+      end
+  | OpStore del b :: t =>
+      let r := bind (accumulate_all dim None live) (fun s => store s b) in
+      history_ref dim (match r with Ok _ => if del then [] else live | Err _ => live end) t (r :: outs)
+  end.
+
 Definition pop_mean (l : list Q) : Q := Qsum l / qofnat (length l).
 Definition sq_dev (l : list Q) : Q := Qsum (map (fun v => (v - pop_mean l) * (v - pop_mean l)) l).
 Definition pop_var (bessel : bool) (l : list Q) : Q :=
